@@ -6,8 +6,8 @@ import subprocess
 
 from . import refinterp as I
 from . import refparse as P
-from .common import HYEONG, WORK, Stats, Violation, collect, finish, pmap
-from .eng_optdiff import big
+from .common import HYEONG, WORK, Stats, Violation, collect, finish, pmap, child_setup
+from .eng_optdiff import big, push_value
 
 FRAGS = [b'\xed\x98\x95', b'\xed\x95\xad.', b'\xed\x9d\x91', b'\xed\x9d\x91.', b'?', b'\xe2\x99\xa5', b'\n', b'a', b'\x00',
          b'\xff', b'\xc0\x80', b'\xed\xa0\x80', b'\xed\x98', b'\xf4\x90\x80\x80']
@@ -86,7 +86,7 @@ def run_bin(args, stdin, cwd):
     env['HYEONG_VERIF_STEPS'] = str(BUDGET)
     env['RUST_BACKTRACE'] = '0'
     try:
-        p = subprocess.run([HYEONG] + args, input=stdin, stdout=subprocess.PIPE, stderr=subprocess.PIPE, cwd=cwd, env=env,
+        p = subprocess.run(preexec_fn=child_setup, args=[HYEONG] + args, input=stdin, stdout=subprocess.PIPE, stderr=subprocess.PIPE, cwd=cwd, env=env,
                            timeout=30)
         return p.returncode, p.stdout, p.stderr
     except subprocess.TimeoutExpired:
@@ -176,7 +176,7 @@ def names_task():
             env = dict(os.environ)
             env['RUST_BACKTRACE'] = '0'
             try:
-                p = subprocess.run([HYEONG.encode()] + [s.encode() for s in sub] + [b'--color', b'never',
+                p = subprocess.run(preexec_fn=child_setup, args=[HYEONG.encode()] + [s.encode() for s in sub] + [b'--color', b'never',
                                    arg if isinstance(arg, bytes) else arg.encode()],
                                    input=b'', stdout=subprocess.PIPE, stderr=subprocess.PIPE, cwd=d, env=env, timeout=30)
                 rc, out, err = p.returncode, p.stdout, p.stderr
@@ -196,11 +196,12 @@ def names_task():
 
 def special_programs():
     out = []
-    vals = {'d800': (216, 256), 'dfff': (8191, 7), '110000': (1088, 1024), '2^31': (32768, 65536), 'ffffffff': (65535, 65537)}
+    vals = {'d7ff': 0xD7FF, 'd800': 0xD800, 'dfff': 0xDFFF, 'e000': 0xE000, '10ffff': 0x10FFFF, '110000': 0x110000,
+            '2^31': 1 << 31, 'ffffffff': (1 << 32) - 1}
     rd = '흑 항... 흑... '
-    for name, (a, b) in vals.items():
+    for name, n in vals.items():
         for sink in ('.', '..'):
-            w = '%s 항%s' % (big(a, b), sink)
+            w = '%s 항%s' % (push_value(n), sink)
             for pre in ('', '형... 항. ', rd, rd + '형... 항.. '):
                 for post in ('', ' 형... 항.'):
                     out.append(pre + w + post)
